@@ -235,10 +235,10 @@ theorem rowsOK_makeClusterObjects (v : View) (gen : Nat → String) (src out : F
 theorem rowsOK_makeChannelObjects (v : View) (out : FDir) (hv : ViewOK v) (h : RowsOK v out) :
     RowsOK v (makeChannelObjects v out) := by
   unfold makeChannelObjects
-  exact rowsOK_write _ _ h (by intro _; simp [expectedRows, sizesOf, firstDim, fresh, tokRows_length, hv.2.2.2])
+  exact rowsOK_write _ _ h (by intro _; simp [expectedRows, sizesOf, firstDim, fresh, tokRows_length, hv.2.2.2.2])
 
 theorem spikeAmps_length (v : View) (hv : ViewOK v) : (spikeAmps v).length = v.samples.length := by
-  simp [spikeAmps, hv.2.1, hv.2.2.1]
+  simp [spikeAmps, hv.2.2.1, hv.2.2.2.1]
 
 theorem rowsOK_makeTemplateAndSpikesObjects (v : View) (out : FDir) (hv : ViewOK v) (h : RowsOK v out) :
     RowsOK v (makeTemplateAndSpikesObjects v out) := by
@@ -246,14 +246,14 @@ theorem rowsOK_makeTemplateAndSpikesObjects (v : View) (out : FDir) (hv : ViewOK
   refine rowsOK_write _ _ (rowsOK_write _ _ (rowsOK_write _ _ (rowsOK_write _ _ (rowsOK_write _ _
     (rowsOK_write _ _ (rowsOK_write _ _ (rowsOK_write _ _ (rowsOK_write _ _ h ?_) ?_) ?_) ?_) ?_) ?_) ?_) ?_) ?_
   all_goals intro _
-  all_goals simp [expectedRows, sizesOf, firstDim, fresh, tokRows_length, timesOf, spikeAmps_length v hv]
+  all_goals simp [expectedRows, sizesOf, firstDim, fresh, tokRows_length, hv.1, spikeAmps_length v hv]
 
 theorem spikesDepths_length (v : View) (hv : ViewOK v) (cd : List Row) :
     (spikesDepths v cd).length = v.samples.length := by
   unfold spikesDepths
   split
-  · simp [tokRows_length, timesOf]
-  · simp [hv.1]
+  · simp [tokRows_length, hv.1]
+  · simp [hv.2.1]
 
 theorem rowsOK_makeDepths (v : View) (out out' : FDir) (hv : ViewOK v) (h : RowsOK v out)
     (hd : makeDepths v out = some out') : RowsOK v out' := by
@@ -844,7 +844,7 @@ theorem not_matches_of_first (attr : String) (label : String) (a b c : String)
 
 theorem export_times_samples (cfg : Cfg) (v : View) (gen : Nat → String) (fs : FS) (h : Convertible cfg fs) :
     (convertFS cfg v gen fs).fs.out.lookup (labelled' cfg.label ["spikes", "times", "npy"]) =
-      some (fresh ((timesOf v.rate v.samples).map Row.q)) ∧
+      some (fresh (v.times.map Row.q)) ∧
     (convertFS cfg v gen fs).fs.out.lookup (labelled' cfg.label ["spikes", "samples", "npy"]) =
       some (fresh (v.samples.map Row.z)) := by
   constructor
@@ -1017,5 +1017,38 @@ theorem nClusters_eq_loadClusters (v : View) (W : List C09.Mat) (chans : List (L
   by_cases h : v.spikeClusters = v.spikeTemplates
   · simp [h, hW]
   · simp [h]
+
+
+/-! ### the two layouts of the spike times -/
+
+theorem roundHalfEven_spec (q : Rat) :
+    ((roundHalfEven q : Int) : Rat) - q ≤ 1 / 2 ∧ q - ((roundHalfEven q : Int) : Rat) ≤ 1 / 2 ∧
+    (q - (q.floor : Rat) = 1 / 2 → roundHalfEven q % 2 = 0) := by
+  have h1 := Rat.floor_le q
+  have h2 := Rat.lt_floor_add_one q
+  have h3 : ((q.floor + 1 : Int) : Rat) = (q.floor : Rat) + 1 := by simp [Rat.intCast_add]
+  rw [h3] at h2
+  unfold roundHalfEven
+  simp only []
+  split
+  · rename_i hlt
+    refine ⟨by grind, by grind, ?_⟩
+    intro h; rw [h] at hlt; exact absurd hlt (Rat.lt_irrefl)
+  · split
+    · rename_i hlt
+      rw [h3]; refine ⟨by grind, by grind, ?_⟩
+      intro h; rw [h] at hlt; exact absurd hlt (Rat.lt_irrefl)
+    · have he : q - (q.floor : Rat) = 1 / 2 := by grind
+      split
+      · refine ⟨by grind, by grind, fun _ => by assumption⟩
+      · rw [h3]; refine ⟨by grind, by grind, fun _ => by omega⟩
+
+theorem load_layouts (rate : Rat) :
+    (∀ s, loadSpikeSamples rate (.inSamples s) = (s, timesOf rate s)) ∧
+    (∀ t s, (loadSpikeSamples rate (.inSeconds t s)).2 = t) ∧
+    (∀ t s, (loadSpikeSamples rate (.inSeconds t (some s))).1 = s) ∧
+    (∀ t, (loadSpikeSamples rate (.inSeconds t none)).1 = t.map fun x => roundHalfEven (x * rate)) := by
+  refine ⟨fun _ => rfl, ?_, fun _ _ => rfl, fun _ => rfl⟩
+  intro t s; cases s <;> rfl
 
 end PhyVerif.C13.Lemmas
